@@ -40,9 +40,22 @@ class Report:
         if sample is not None and len(self.samples) < 12:
             self.samples.append(sample)
 
-    def violated(self, rule, key, what, detail=None):
+    def violated(self, rule, key, what, detail=None, graphs=None):
+        """graphs=(got, expected): the differing value graphs; a concrete distinguishing assignment is
+        searched (on the graphs, never on repository code).  With a witness the verdict is definite and the
+        witness goes into the replay file; without one the instance is UNDECIDED (the normal forms differ but
+        may denote the same function)."""
         if any(v["key"] == "%s:%s" % (rule, key) for v in self.violations):
             return
+        if graphs is not None:
+            from . import bv
+            w = bv.find_witness(graphs[0], graphs[1], seed=self.seed)
+            if w is None:
+                self.undecide(rule, key, "normal forms differ but no distinguishing assignment was found in 18 trials (%s)" % what[:200])
+                return
+            detail = dict(detail or {}, witness=w)
+            what = what + " [witness: output bit %s is %s, reference %s, for inputs %s]" % (
+                w["index"], w["got"], w["expected"], ", ".join("%s=%s" % (k, v[:22]) for k, v in list(w["inputs"].items())[:4]))
         self.violations.append({"rule": rule, "key": "%s:%s" % (rule, key), "what": what, "detail": detail})
 
     def undecide(self, rule, key, why):
